@@ -149,6 +149,92 @@ def unique_inverse_model(E, col):
     return values, inverse
 
 
+def check_unique_inverse(run, E, pid):
+    """util.data_utils.get_unique_inverse(array) -> (values, inverse), for ALL 1-D sequences of hashable scalars:
+    every entry is found again under its index (values[inverse[i]] == array[i], indices in range), the values are pairwise
+    distinct, there are as many as distinct entries, and they stand in ORDER OF FIRST APPEARANCE (position of the first
+    occurrence strictly increasing).  numpy contracts assumed: np.unique(return_index, return_inverse), argsort (lib.DOC).
+    This discharges the contract that C01 / C11 / C14 contracts use for the function (`unique_inverse_model`)."""
+    import z3
+    from vf.pyvc.api import FuncCheck
+    from vf.pyvc.core import ufunc, boxI
+    from vf.pyvc.values import fresh_name
+    ck = FuncCheck(E, run, pid, 'rsatoolbox.util.data_utils.get_unique_inverse', '')
+    hold = {}
+
+    def mk(E):
+        a = E.sym_list('array', etag='scalar')
+        a.kind = 'array'
+        hold['a'] = a
+        return [a], {}, [a.length >= 1]
+
+    def post(ck, E, args, kw, p):
+        a = hold['a']
+        n = a.zlen()
+        res = p.value
+        ok = isinstance(res, tuple) and len(res) == 2 and all(isinstance(x, SeqV) for x in res)
+        ck.ensure('post/returns-values-and-inverse', z3.BoolVal(bool(ok)), structure=True, note=repr(res)[:200])
+        if not ok:
+            return
+        values, inverse = res
+        m = values.zlen()
+        at = E.toV(a)
+        ck.ensure('post/one-inverse-entry-per-element', inverse.zlen() == n)
+        ck.ensure('post/as-many-values-as-distinct-entries', m == ufunc('nunique', 1, 'int')(at))
+        i = z3.Int(fresh_name('i'))
+        inv_i = E.as_int(E.seq_elem(inverse, i))
+        ck.ensure('post/every-entry-is-found-under-its-index',
+                  z3.Implies(z3.And(i >= 0, i < n),
+                             z3.And(inv_i >= 0, inv_i < m, E.veq(E.seq_elem(values, inv_i), E.seq_elem(a, i)))))
+        x, y = z3.Int(fresh_name('a')), z3.Int(fresh_name('b'))
+        vx, vy = E.seq_elem(values, x), E.seq_elem(values, y)
+        ck.ensure('post/values-are-pairwise-distinct',
+                  z3.Implies(z3.And(x >= 0, x < y, y < m), z3.Not(E.veq(vx, vy))))
+        # order of first appearance: with first(v) = position of the first occurrence of v (np.unique's return_index)
+        fi = ufunc('uniq_first', 2, 'int')
+        ix = ufunc('uniq_idx', 2, 'int')
+        fx, fy = fi(at, boxI(ix(at, E.toV(vx)))), fi(at, boxI(ix(at, E.toV(vy))))
+        ck.ensure('post/values-in-order-of-first-appearance', z3.Implies(z3.And(x >= 0, x < y, y < m), fx < fy))
+    ck.execute(mk, post=post, allow_raise=lambda *a: None)
+    yield ck
+    # get_unique_unsorted(array): the same list of values without the inverse
+    ck2 = FuncCheck(E, run, pid, 'rsatoolbox.util.data_utils.get_unique_unsorted', '')
+
+    def post2(ck, E, args, kw, p):
+        a = hold['a']
+        n = a.zlen()
+        values = p.value
+        ok = isinstance(values, SeqV)
+        ck.ensure('post/returns-the-values', z3.BoolVal(bool(ok)), structure=True, note=repr(values)[:200])
+        if not ok:
+            return
+        m = values.zlen()
+        at = E.toV(a)
+        ck.ensure('post/as-many-values-as-distinct-entries', m == ufunc('nunique', 1, 'int')(at))
+        x, y = z3.Int(fresh_name('a')), z3.Int(fresh_name('b'))
+        vx, vy = E.seq_elem(values, x), E.seq_elem(values, y)
+        ck.ensure('post/values-are-pairwise-distinct', z3.Implies(z3.And(x >= 0, x < y, y < m), z3.Not(E.veq(vx, vy))))
+        fi = ufunc('uniq_first', 2, 'int')
+        ix = ufunc('uniq_idx', 2, 'int')
+        fx, fy = fi(at, boxI(ix(at, E.toV(vx)))), fi(at, boxI(ix(at, E.toV(vy))))
+        ck.ensure('post/values-in-order-of-first-appearance', z3.Implies(z3.And(x >= 0, x < y, y < m), fx < fy))
+        ck.ensure('post/every-value-occurs-in-the-array',
+                  z3.Implies(z3.And(x >= 0, x < m), z3.And(fx >= 0, fx < n, E.veq(E.seq_elem(a, fx), vx))))
+    ck2.execute(mk, post=post2, allow_raise=lambda *a: None)
+    yield ck2
+
+
+def discharge_unique_inverse(run, pid):
+    """own engine; -> failed obligations.  Called by every property whose contracts or oracles rely on the first-appearance
+    grouping of labels (calc_rdm's condition averaging, dataset splits, noise estimation, simulation round trips, searchlights)."""
+    E = new_engine(run)
+    fails = []
+    for ck in check_unique_inverse(run, E, pid):
+        fails += ck.failed
+    finish_engine(E, run)
+    return fails
+
+
 def install_dataset(E):
     def meas(E, obj, name):
         v = E.app('attr.measurements', [obj], tag='ndarray')
